@@ -109,6 +109,15 @@ Definition spec (d : dc) (root : path) (its : list itok) : expect :=
       if forallb (intent_ok ch lp) its then (if soft then NoCrash else MustBe v ch) else MustReject
   end.
 
+(* argparse's prefix matching on the MAIN parser is set aside by the property ("abbreviations aside"): nothing is demanded
+   of a command line on which some written option is not a registered spelling of the resolved parser but a proper prefix
+   of a registered spelling of something OTHER than what it denotes (`--lr` of an unchosen group while `--lrd` is
+   registered).  An option written as an abbreviation of what it denotes is not excused (see BeOrReject). *)
+Definition reads_as_other (tb : optab) (o : string) (intent : option path) : bool :=
+  negb (is_some (exact tb o))
+  && existsb (fun e => prefixb o (fst e)
+                       && negb (match intent with Some q => path_eqb q (snd e) | None => false end)) tb.
+
 (* ---------- comparing with an outcome ---------- *)
 Fixpoint leaves_eqb (a b : list (string * Z)) : bool :=
   match a, b with
